@@ -66,14 +66,14 @@ CHECKS.update({
 
 CHECKS.update({
  "C04": ("mc", "model_checking", "stateless exploration of all schedules within a deviation bound x enumerated stop/timer instants, real goroutines on a controlled scheduler",
-   "The real driver, engine and iterative-deepening search of every bundled engine (construction lifted from cmd/*/main.go at check time) run on the controlled scheduler; engine x option x set-up x go-variant scenarios are crossed with every release instant of `stop` and of the timers on a grid over the whole run, and every schedule within the deviation bound is executed to completion: every go gets exactly one bestmove, legal in the position last set up, 0000 only without legal moves.",
-   "Searches are tiny (K v K, fortress roots; depth <= 2) because every cancellation poll is a scheduling point; timers are arbitrary delays; weak-memory effects are not modelled; plain accesses of the driver packages are clock-checked and racing sites, if any, become scheduling points (none on this tree).", "DESIGN.md §3, §5 C04"),
+   "The real driver, engine and iterative-deepening search of every bundled engine (construction lifted from cmd/*/main.go at check time) run on the controlled scheduler; engine x option x set-up x go-variant scenarios are crossed with every release instant of `stop` and of the timers on a grid over the whole run and, separately, with `stop` and the timers as lazy threads (any scheduling point, one deviation each); every schedule within the deviation bound is executed to completion: every go gets exactly one bestmove, legal in the position last set up, 0000 only without legal moves.",
+   "Searches are tiny (K v K, fortress roots; depth <= 2) because every cancellation poll is a scheduling point; timers are arbitrary delays; weak-memory effects are not modelled; plain accesses of the driver packages are clock-checked and racing sites, if any, become scheduling points and the scenarios that showed them are explored again race-directed with two more deviations (none on this tree).", "DESIGN.md §3, §5 C04"),
  "C15": ("mc", "model_checking", "stateless exploration of all schedules within a deviation bound x enumerated halt instants; complete grid for the time-control limits",
-   "searchctl.Iterative runs on the controlled scheduler with a consumer, a halter released at every step of a grid over the run, the hard-limit timer and environment answers for time.Since; every schedule within the bound is checked against direct fixed-depth searches (faithful, increasing, ends exactly when it must, Halt guarantees). TimeControl.Limits is enumerated over a complete grid.",
-   "Small roots only; the 'reported before the halt was requested' clause is evaluated on what the consumer had received; plain accesses of searchctl are clock-checked and racing sites, if any, become scheduling points (none on this tree).", "DESIGN.md §5 C15"),
+   "searchctl.Iterative runs on the controlled scheduler with a consumer, a halter released at every step of a grid over the run, a consumer that halts on seeing depth D next to the hard-limit timer (grid and lazy), the hard-limit timer and environment answers for time.Since; every schedule within the bound is checked against direct fixed-depth searches (faithful, increasing, ends exactly when it must, Halt guarantees). TimeControl.Limits is enumerated over a complete grid.",
+   "Small roots only; the 'reported before the halt was requested' clause is evaluated on what the consumer had received; plain accesses of searchctl are clock-checked and racing sites, if any, become scheduling points and the scenarios that showed them are explored again race-directed with two more deviations (none on this tree).", "DESIGN.md §5 C15"),
  "C16": ("mc", "model_checking", "stateless exploration of all schedules within a deviation bound x enumerated injection instants, real goroutines on a controlled scheduler",
-   "GUI scripts `position; go X; <interrupting word>; isready; quit|EOF` over a 10-command alphabet (words of length <= 2) run against the real driver with the interrupting command released at every step of a grid over the uninterrupted run; every schedule within the deviation bound is executed and its event log checked: no panic, no deadlock, isready answered, no stale/duplicate/unsolicited bestmove, clean shutdown.",
-   "K v K roots with the two colours to move so that a bestmove identifies its search; horizon-cut executions are inconclusive and counted; plain accesses of the driver packages are clock-checked and racing sites, if any, become scheduling points (none on this tree).", "DESIGN.md §5 C16"),
+   "GUI scripts `position; go X; <interrupting word>; isready; quit|EOF` over a 10-command alphabet (words of length <= 2) run against the real driver with the interrupting command released at every step of a grid over the uninterrupted run and, separately, as a lazy thread (any scheduling point for one deviation); every schedule within the deviation bound is executed and its event log checked: no panic, no deadlock, isready answered, no stale/duplicate/unsolicited bestmove, clean shutdown.",
+   "K v K roots with the two colours to move so that a bestmove identifies its search; horizon-cut executions are inconclusive and counted; plain accesses of the driver packages are clock-checked and racing sites, if any, become scheduling points and the scenarios that showed them are explored again race-directed with two more deviations (none on this tree).", "DESIGN.md §5 C16"),
  "C17": ("mc", "model_checking", "stateless exploration of ALL interleavings of small table harnesses (no bound) with a brute-force linearizability check and vector-clock data-race detection over rewritten plain accesses",
    "2-3 threads x 1-3 operations on colliding keys of 1-4-slot tables; every interleaving of the atomic steps (pointer load/CAS, counter update) is executed and checked: no two plain accesses to the same byte, one a store, left unordered by the happens-before relation of that interleaving (every field/element access of transposition.go is wrapped by the rewriter; vector clocks); hits return one single store's tuple, history linearizable w.r.t. the sequential table including the replacement rule, fill fraction exact at quiescence and within [0,1].",
    "Sequentially consistent atomics (no weak-memory reordering beyond what a data race admits: races are decided per interleaving by the clocks; the free-running -race pass only cross-checks the shim).", "DESIGN.md §5 C17"),
